@@ -13,10 +13,16 @@ def analyse(case, d):
     live = set()          # entered, not yet completely exited (exit for a leaf, exitEnd for a group)
     last_enter = {}
     episodes = []         # stack of [scheduler id, kind, [completion order of direct members]]
+    forced = set()        # doers whose current incarnation was ceased
+    loose = {}            # scheduler id -> forced completions of its members OUTSIDE any exit()/remove() episode of that scheduler
+                          # (e.g. doers closed while an enter that raised is being unwound): same reverse-enter-order clause
     tr = d["trace"]
     for pos, e in enumerate(tr):
         i, k = e[0], e[1]
+        if k == "cease":
+            forced.add(i)
         if k == "enter":
+            forced.discard(i)
             last_enter[i] = pos
             live.add(i)
             a = par.get(i, 0)
@@ -39,6 +45,9 @@ def analyse(case, d):
                 if ep[0] == par.get(i, 0):
                     ep[2].append(i)
                     break
+            else:
+                if i in forced:
+                    loose.setdefault(par.get(i, 0), []).append(i)
         if k in ("stopEnd", "rmEnd", "exitEnd"):
             want = {"stopEnd": "stop", "rmEnd": "rm", "exitEnd": "gexit"}[k]
             if episodes and episodes[-1][0] == i and episodes[-1][1] == want:
@@ -56,6 +65,11 @@ def analyse(case, d):
             a = par.get(i, 0)
             if a != 0 and a not in live:
                 bad.append("child-event-outside-parent-lifetime")
+    for sid, order in loose.items():
+        for a in range(len(order)):
+            for b in range(a + 1, len(order)):
+                if last_enter.get(order[a], -1) < last_enter.get(order[b], -1):
+                    inv.append((sid, order[a], order[b]))
     if live:
         bad.append("alive-when-do-returned")
     if d["late"]:
